@@ -97,8 +97,8 @@ def h1(
     """
 
     # Extra treatment for pandas types
-    if isinstance(data, tuple) and isinstance(
-        data[0], str
+    if (
+        isinstance(data, tuple) and data and isinstance(data[0], str)
     ):  # Works for groupby DataSeries
         return h1(data[1], bins, name=data[0], **kwargs)
     if type(data).__name__ == "DataFrame":
